@@ -21,7 +21,7 @@ LEVEL = "exploration"
 def plan(tier):
     if tier == "thorough":
         return dict(rounds=640, examples_per_round=80, wall_cap=3000, job_timeout=1500)
-    return dict(rounds=32, examples_per_round=36, wall_cap=420, job_timeout=600)
+    return dict(rounds=72, examples_per_round=16, wall_cap=420, job_timeout=600)
 
 
 # ------------------------------------------------------------------ scenario strategy
